@@ -131,8 +131,8 @@ class ProbeModule:
         wasm_bytes = self.m.encode()
         d, r = ctx.translate(wasm_bytes, self.modname, opts)
         if d is None:
-            raise Undecided("w2c2 rejected probe module %s (rc=%s): %s %s" % (
-                self.modname, r.returncode, r.stdout.decode(errors="replace")[-500:], r.stderr.decode(errors="replace")[-500:]))
+            from .core import rejected_job
+            return [rejected_job("%s.translate.%s" % (prefix, self.modname), self.modname, r, wasm_bytes.hex())]
         hpath = os.path.join(d, "gh_%s.c" % self.modname)
         with open(hpath, "w") as f:
             f.write(self.harness_text(spec_includes))
